@@ -32,6 +32,8 @@ type Obl struct {
 	Model  string
 	Index  int
 	Replayed bool
+	ReplayFull bool // every precondition of the function was evaluated (and true) in the replay
+	Labeled  bool // named by a contract label (not by source text)
 }
 
 type Event struct {
